@@ -520,24 +520,6 @@ Proof.
         simpl. rewrite (set_ok defs bs os os1 Hr EC). simpl. eapply IH; eauto.
 Qed.
 
-Lemma check_case_model : forall i, check_case i (run_case i) = true.
-Proof.
-  intros [defs srcs]. unfold check_case, run_case. rewrite define_all_spec. simpl map.
-  unfold has_dup. fold def_key. change (map (fun d => normalize (d_name d)) defs) with (map def_key defs).
-  destruct (dup_from [] (map def_key defs)); [reflexivity|]. simpl app.
-  destruct (run_sources (map init_opt defs) srcs) as [os' outs] eqn:ER.
-  apply andb_true_intro. split; [apply andb_true_intro; split|].
-  - apply defaults_kept_model. replace os' with (fst (run_sources (map init_opt defs) srcs)) by (rewrite ER; auto).
-    apply run_sources_R. intros s k Hs Hm. unfold mentioned. apply existsb_exists. exists s. auto.
-  - eapply accepted_model; [apply rel_init|exact ER].
-  - destruct srcs as [|[[|a0 args]|bs|bs] ss]; auto.
-    destruct (unknown_before_end (map def_key defs) args) eqn:EU; auto.
-    destruct (unknown_raises (map def_key defs) args (map init_opt defs)) as [e He]; auto.
-    { rewrite map_map. reflexivity. }
-    simpl in ER. destruct (cmd_loop (map init_opt defs) args) as [os1 r]. simpl in He. subst r.
-    inversion ER; subst. destruct e; reflexivity.
-Qed.
-
 (* ------------------------------------------------------------------ *)
 (* attribute assignment (options.name = value) and element-wise typing  *)
 Lemma set_unknown os name v bs : lookup (normalize name) os = None ->
